@@ -17,7 +17,7 @@ extern "C" {
 #include <unistd.h>
 #include <vector>
 
-static const int CHUNKS[] = {0, 1, 2, 3, 4, 5, 7, 8, 13, 16, 17, 32, 64, 100, 4096, 65536};
+static const long long CHUNKS[] = {0, 1, 2, 3, 4, 5, 7, 8, 13, 16, 17, 32, 64, 4096, (1LL << 32), (1LL << 32) + 16};
 static const int SIZES[] = {0, 1, 19, 20, 21, 64, 300, 5000};
 
 static void die(const char *what, const uint8_t *data, size_t size) {
@@ -30,7 +30,7 @@ extern "C" int LLVMFuzzerTestOneInput(const uint8_t *data, size_t size) {
   if (size < 3) return 0;
   int combo = data[0] % 12, entry = (data[0] >> 4) & 3;
   bool internal = data[1] & 1; int n = SIZES[(data[1] >> 1) & 7]; bool fitting = data[1] & 16; int startcls = (data[1] >> 5) & 7;
-  int chunk = CHUNKS[data[2] & 15];
+  long long chunk = CHUNKS[data[2] & 15];
   std::string text((const char *)data + 3, size - 3);
   size_t z = text.find('\0'); if (z != std::string::npos) text.resize(z);
 
@@ -40,7 +40,7 @@ extern "C" int LLVMFuzzerTestOneInput(const uint8_t *data, size_t size) {
   assemblyline_t a = asm_create_instance(internal ? nullptr : buf, n);
   if (!a) return 0;
   asm_mov_imm(a, (enum asm_opt)(combo % 3)); asm_sib_index_base_swap(a, (enum asm_opt)((combo / 3) % 2)); asm_sib_no_base(a, (enum asm_opt)((combo / 6) % 2));
-  if (fitting) asm_set_chunk_size(a, chunk);
+  if (fitting) asm_set_chunk_size(a, (size_t)chunk);
   int limit = internal ? 6000 : n;
   int start = startcls == 0 ? 0 : startcls == 1 ? limit : startcls == 2 ? limit / 2 : startcls == 3 ? (limit > 20 ? limit - 20 : 0) : startcls == 4 ? (limit > 21 ? limit - 21 : 0) : startcls == 5 ? 1 : startcls == 6 ? (limit > 19 ? limit - 19 : 0) : 7 % (limit + 1);
   if (start > limit) start = limit; /* offsets are documented for 0..n only */
@@ -48,12 +48,12 @@ extern "C" int LLVMFuzzerTestOneInput(const uint8_t *data, size_t size) {
   int rc, cnt = 0;
   std::vector<char> w(text.begin(), text.end()); w.push_back(0);
   if (entry == 0) rc = asm_assemble_str(a, text.c_str());
-  else if (entry == 1) rc = asm_assemble_string_counting_chunks(a, w.data(), chunk, &cnt);
+  else if (entry == 1) rc = asm_assemble_string_counting_chunks(a, w.data(), (int)chunk, &cnt);
   else {
     int fd = memfd_create("c09", 0); if (fd < 0) { asm_destroy_instance(a); return 0; }
     if (!text.empty() && write(fd, text.data(), text.size()) != (ssize_t)text.size()) { close(fd); asm_destroy_instance(a); return 0; }
     char path[64]; snprintf(path, sizeof path, "/proc/self/fd/%d", fd);
-    rc = entry == 2 ? asm_assemble_file(a, path) : asm_assemble_file_counting_chunks(a, path, chunk, &cnt);
+    rc = entry == 2 ? asm_assemble_file(a, path) : asm_assemble_file_counting_chunks(a, path, (int)chunk, &cnt);
     close(fd);
   }
   if (rc != EXIT_SUCCESS && rc != EXIT_FAILURE) die("return value is neither EXIT_SUCCESS nor EXIT_FAILURE", data, size);
